@@ -153,6 +153,39 @@ def main(tier):
                     chk.add_failure(f"p = {S.show(sx)} built twice; {uname} on one of them", {"what": "the used predicate and the fresh one compare equal but answer differently", "used": r1, "fresh": r2}, None)
     chk.evaluations += used_cases
     chk.extra["used_vs_fresh_cases"] = used_cases
+    # ---- reflexivity holds for every predicate OBJECT, whatever its parameters: an object is equal to itself also when a parameter
+    # is not equal to itself (NaN bounds and constants); operands stay unordered and can_optimize stays `optimize(p) != p` there
+    import predicate as _P6
+
+    nan = float("nan")
+    nan_atoms = [("eq_p(nan)", _P6.eq_p(nan)), ("ne_p(nan)", _P6.ne_p(nan)), ("ge_p(nan)", _P6.ge_p(nan)), ("gt_p(nan)", _P6.gt_p(nan)), ("le_p(nan)", _P6.le_p(nan)), ("lt_p(nan)", _P6.lt_p(nan)),
+                 ("ge_le_p(nan, 5)", _P6.ge_le_p(nan, 5)), ("ge_lt_p(0, nan)", _P6.ge_lt_p(0, nan)), ("gt_le_p(nan, nan)", _P6.gt_le_p(nan, nan)), ("gt_lt_p(nan, 1)", _P6.gt_lt_p(nan, 1)),
+                 ("in_p(nan, 1)", _P6.in_p(nan, 1)), ("not_in_p(nan)", _P6.not_in_p(nan)), ("has_length_p(nan)", _P6.has_length_p(nan)), ("all_p(eq_p(nan))", _P6.all_p(_P6.eq_p(nan))),
+                 ("is_tuple_of_p(eq_p(nan))", _P6.is_tuple_of_p(_P6.eq_p(nan)))]
+    other = _P6.is_str_p
+    refl = 0
+    for d, q in nan_atoms:
+        refl += 1
+        facts = []
+        try:
+            if not (q == q):
+                facts.append("p == p is False for one and the same object")
+            if not ((q & other) == (other & q)):
+                facts.append("(p & r) == (r & p) is False")
+            if not ((~q) == (~q)):
+                facts.append("~p == ~p is False over one object p")
+            try:
+                o = optimize(q)
+                if can_optimize(q) != (o != q):
+                    facts.append(f"can_optimize(p) is {can_optimize(q)} although optimize(p) != p is {o != q}")
+            except Exception:  # noqa: BLE001
+                pass
+        except Exception as e:  # noqa: BLE001
+            facts.append(f"== raised {type(e).__name__}")
+        if facts:
+            chk.add_failure(f"p = {d} (one object)", {"what": "; ".join(facts)}, None)
+    chk.evaluations += refl
+    chk.extra["reflexivity_with_parameters_unequal_to_themselves"] = refl
     chk.extra["equal_pairs_checked_on_values"] = eq_pairs
     chk.extra["probe_values_skipped_because_a_side_raises"] = undefined
     chk.extra["can_optimize_cases"] = co
